@@ -1,5 +1,6 @@
 import PydjinniModel.Drv.GenJson
 import PydjinniModel.Gen.Fidelity
+import PydjinniModel.Gen.IdentSpec
 /-! Driver handlers for property C02: identifier conversion, per-target type mapping (model and reference),
     declaration skeletons (model) and the fidelity specification on an extracted skeleton. -/
 namespace Pydjinni.Drv.C02
@@ -16,6 +17,16 @@ def convertOp (req : Json) : Except String Json := do
 def S (k v : String) : String × Json := (k, Json.str v)
 def B (k : String) (v : Bool) : String × Json := (k, Json.bool v)
 def L (k : String) (v : List String) : String × Json := (k, strsJ v)
+
+/-- `spec` for identifier conversion on implementation outputs: `items = [{style, s, out}]` -/
+def convertSpecOp (req : Json) : Except String Json := do
+  let items ← getArr req "items"
+  let out ← items.mapM (fun it => do
+    let st ← getStyle it "style"
+    let s ← getStr it "s"
+    let o ← getStr it "out"
+    pure (Json.bool (convertSpec st s.toList o.toList)))
+  pure (Json.mkObj [("out", Json.arr out.toArray)])
 
 /-- every marshalling attribute of one type reference, model side and reference side -/
 def typeAnswer (c : Cfg) (t : RType) : Json :=
@@ -120,6 +131,7 @@ def specOp (req : Json) : Except String Json := do
 def handle (op : String) (req : Json) : Except String Json :=
   match op with
   | "c02.convert" => convertOp req
+  | "c02.convertSpec" => convertSpecOp req
   | "c02.types" => typesOp req
   | "c02.skel" => skelOp req
   | "c02.spec" => specOp req
